@@ -1363,12 +1363,18 @@ class LangServer:
         # Skip update and remove objects if file is deleted
         if did_close and (not os.path.isfile(filepath)):
             # Remove old objects from tree
-            file_obj = self.workspace.get(filepath)
+            file_obj = self.workspace.pop(filepath, None)
             if file_obj is not None:
                 ast_old = file_obj.ast
                 if ast_old is not None:
                     for key in ast_old.global_dict:
                         self.obj_tree.pop(key, None)
+                # Nothing may keep referring to the deleted file's objects
+                for _, tmp_file in self.workspace.items():
+                    tmp_file.ast.resolve_includes(self.workspace, path=filepath)
+                self.link_version += 1
+                for _, tmp_file in self.workspace.items():
+                    tmp_file.ast.resolve_links(self.obj_tree, self.link_version)
             return
         did_change, err_str = self.update_workspace_file(
             filepath, read_file=True, allow_empty=did_open
@@ -1383,7 +1389,7 @@ class LangServer:
             file_obj = self.workspace.get(filepath)
             file_obj.ast.resolve_includes(self.workspace)
             # Update inheritance/links
-            self.link_version = (self.link_version + 1) % 1000
+            self.link_version += 1
             for _, file_obj in self.workspace.items():
                 file_obj.ast.resolve_links(self.obj_tree, self.link_version)
         if not self.disable_diagnostics:
@@ -1439,7 +1445,7 @@ class LangServer:
             self.obj_tree[key] = [obj, filepath]
         # Update local links/inheritance if necessary
         if update_links:
-            self.link_version = (self.link_version + 1) % 1000
+            self.link_version += 1
             ast_new.resolve_links(self.obj_tree, self.link_version)
         return True, None
 
@@ -1531,7 +1537,7 @@ class LangServer:
         for _, file_obj in self.workspace.items():
             file_obj.ast.resolve_includes(self.workspace)
         # Update inheritance/links
-        self.link_version = (self.link_version + 1) % 1000
+        self.link_version += 1
         for _, file_obj in self.workspace.items():
             file_obj.ast.resolve_links(self.obj_tree, self.link_version)
 
